@@ -11,6 +11,8 @@ EXPLANATION = ("Exactness of Signature::verify against R_ps by value reconstruct
 
 def run(rep):
     prog = rep.prog
+    from .c19 import key_coordinates_independent
+    key_coordinates_independent(rep)
     from .c15 import wire_group_membership
     wire_group_membership(rep)
     rep.rule("verify-exact", "Signature::verify == (sigma1 != identity) AND e(sigma1, X~ + <Y~,m>) e(sigma2, -g~) = 1, nothing weaker, nothing stronger")
